@@ -30,10 +30,15 @@ VARIABLES tid,   \* case cursor
           info   \* counters of the case: [undef, steps]
 tvars == <<tid, l, ms, ob, fail, info>>
 
+\* the formula an object monitors: given directly in samples (phi) or as written (written + units, property C08)
+IsWritten(obj) == "written" \in DOMAIN obj
+PhiOf(obj) == Desugar(IF IsWritten(obj) THEN NormAst(obj.written, obj.units) ELSE obj.phi)
+StatusOf(obj) == IF IsWritten(obj) THEN NormStatus(obj.written, obj.units) ELSE "ok"
 SeqToSet(s) == {s[i] : i \in 1..Len(s)}
 CfgOf(o) == [S |-> o.S, M |-> o.mode, vars |-> SeqToSet(o.vars), period |-> o.period, tol |-> o.tol]
 InitMs(c) == [i \in 1..Len(c.objs) |-> NewObj(CfgOf(c.objs[i]))]
 InitOb(c) == [i \in 1..Len(c.objs) |-> [on |-> <<>>, off |-> <<>>, offt |-> <<>>, dead |-> FALSE, gets |-> <<>>,
+                                        status |-> StatusOf(c.objs[i]),       \* of the bounds under the configuration in force
                                         compared |-> 0, drift |-> 0]]     \* binding of the explainer model (Explain.tla)
 \* Python raises on the operations the README leaves undefined (division by zero, sqrt/log domain,
 \* overflow); when the model meets Undef in some sub-formula such an exception is "undefined", not a
@@ -44,10 +49,6 @@ AnyUndefOn(m, s) == \E q \in SubF(m.inst) : Out(q, CurOn(m), s, m.cfg.S, m.cfg.M
 NoCase == [objs |-> <<>>, events |-> <<>>, rels |-> <<>>, tid |-> 0]
 CaseAt(i) == IF i <= NCases THEN Cases[i] ELSE NoCase
 
-\* the formula an object monitors: given directly in samples (phi) or as written (written + units, property C08)
-IsWritten(obj) == "written" \in DOMAIN obj
-PhiOf(obj) == Desugar(IF IsWritten(obj) THEN NormAst(obj.written, obj.units) ELSE obj.phi)
-StatusOf(obj) == IF IsWritten(obj) THEN NormStatus(obj.written, obj.units) ELSE "ok"
 
 F(clause, step, exp, got) == <<[clause |-> clause, step |-> step, exp |-> exp, got |-> got, alt |-> "", pof |-> FALSE]>>
 \* failure of a pastified object's update: alt = what the pastification scheme as designed returns here
@@ -82,9 +83,22 @@ ApplyParse(m, o, e, obj, step) ==
 ApplyPastify(m, o, e, obj, step) ==
   \* C08: a bound that is not a whole number of sampling periods may already be rejected by pastify() (which rewrites the
   \* bounds); if pastify() accepts, the first evaluation must reject (clause units.nonmultiple in Apply)
-  IF StatusOf(obj) = "nonint" /\ e.exc = "RTAMT" THEN R(m, [o EXCEPT !.dead = TRUE], Ok, 0) ELSE
+  IF o.status = "nonint" /\ e.exc = "RTAMT" THEN R(m, [o EXCEPT !.dead = TRUE], Ok, 0) ELSE
   IF CanPastify(m) THEN R(PastifyF(m, IF "ltl" \in DOMAIN obj THEN {"ltlDelay"} ELSE {}), o, ExcClass(TRUE, e, "pastify.exc", step), 0)
+  \* pastify() again on a future-free installed formula: harmless; after updates only reset() is specified (Rtamt!RepastifyF)
+  ELSE IF CanRepastify(m) THEN R(RepastifyF(m), o, ExcClass(TRUE, e, "pastify.exc", step), 0)
   ELSE R(m, o, ExcClass(FALSE, e, "pastify.exc", step), 0)
+
+\* set_sampling_period() / spec.unit = ... on a parsed object.  The bounds are resolved when they are needed - at every
+\* evaluate() - so an offline object may be re-configured between evaluations, and the next evaluate() means the bounds as
+\* written under the configuration then in force (a bound that is no longer a whole number of periods is rejected then).
+\* Re-configuring an online monitor whose operators are built is outside the specification (the object is not examined further).
+ApplyConfig(m, o, e, obj, step) ==
+  IF ~IsWritten(obj) \/ m.phase \notin {"parsed", "offline"} THEN R(m, [o EXCEPT !.dead = TRUE], Ok, 0)
+  ELSE LET st == NormStatus(obj.written, e.units) IN
+       IF st = "overflow" THEN R(m, [o EXCEPT !.dead = TRUE], Ok, 1)
+       ELSE LET phi2 == Desugar(NormAst(obj.written, e.units)) IN
+            R([m EXCEPT !.phi = phi2, !.inst = phi2], [o EXCEPT !.status = st], ExcClass(TRUE, e, "config.exc", step), 0)
 
 \* expected value of the k-th update: operational model for a non-pastified object; for a pastified one
 \* the property C03 itself (defined only after the horizon)
@@ -96,6 +110,7 @@ ExpUpdate(m2) ==
        ELSE <<FALSE, 0>>
 
 ApplyUpdate(m, o, e, step) ==
+  IF m.phase = "stale" THEN R(m, [o EXCEPT !.dead = TRUE], Ok, 0) ELSE       \* (unspecified: pastify() again without a reset())
   IF ~CanUpdate(m) THEN R(m, o, ExcClass(FALSE, e, "update.exc", step), 0)
   ELSE IF AnyUndefOn(m, e.s) THEN
        \* some sub-formula has no defined value (inf - inf, 0 * inf, division by zero ...): Python either raises
@@ -247,7 +262,7 @@ Apply(c, e, step) ==
   LET m == ms[e.o] o == ob[e.o] obj == c.objs[e.o] IN
   IF o.dead THEN R(m, o, Ok, 0) ELSE
   \* C08: a bound that is not a whole number of sampling periods is rejected (RTAMTException) at the first evaluation
-  IF e.a \in {"update", "evaluate"} /\ StatusOf(obj) = "nonint"
+  IF e.a \in {"update", "evaluate"} /\ o.status = "nonint"
   THEN R(m, [o EXCEPT !.dead = TRUE], ExcClass(FALSE, e, "units.nonmultiple", step), 0) ELSE
   CASE e.a = "parse"    -> ApplyParse(m, o, e, obj, step)
     [] e.a = "pastify"  -> ApplyPastify(m, o, e, obj, step)
@@ -256,6 +271,7 @@ Apply(c, e, step) ==
     [] e.a = "evaluate" -> ApplyEvaluate(m, o, e, step)
     [] e.a = "get"      -> ApplyGet(m, o, e, obj, step)
     [] e.a = "explain"  -> ApplyExplain(m, o, e, step)
+    [] e.a = "config"   -> ApplyConfig(m, o, e, obj, step)
 
 \* relations between the objects of a case, evaluated when all its events are consumed
 RelFail(c, r) ==
